@@ -606,12 +606,15 @@ class LockAllInterleavings(Bounded):
              "property: never two holders, the holder's unlock succeeds and releases, a free or stale lock can be "
              "acquired by a process scheduled alone")
     scope = ("one case = one scenario, ALL of whose interleavings are searched. Initial world: free / stale link of a "
-             "dead pid / held by live process 1. Scripts over L (lock), u (unlock iff holder), U (unlock regardless), "
-             "D (die, possibly while holding). quick: every unordered pair of the 14 scripts with <= 2 calls (x 3 "
-             "initial worlds; for 'held' every ordered pair), every unordered triple over {L, Lu, LU, LD, UL} x 3 "
-             "worlds; thorough: pairs of scripts with <= 3 calls, triples of scripts with <= 2 calls, seeded random "
-             "triples/quadruples of longer scripts. Atomicity: one OS call-out plus the process-local code after it; "
-             "POSIX branch of lockfile only; pid reuse, EPERM from kill and unreadable link text not modelled")
+             "dead pid / held by live process 1 (which goes on with one of 9 scripts: nothing, u, U, D, uL, uLu, L, Lu, "
+             "uD). Scripts over L (lock), u (unlock iff holder), U (unlock regardless), D (die, possibly while "
+             "holding). quick: 1 process with every script of <= 3 calls; 2 processes, every unordered pair of the "
+             "12 scripts with <= 2 calls; 3 processes, every unordered triple over {L, Lu, LU, LD, UL}; each in "
+             "every initial world. thorough adds pairs of scripts with <= 3 calls, triples of scripts with <= 2 calls, "
+             "and 40 seeded random scenarios (3 processes with scripts of <= 4 calls in any world; 4 processes with "
+             "scripts of <= 2 calls in worlds without a dead process). Atomicity: one OS call-out plus the "
+             "process-local code after it; POSIX branch of lockfile only; pid reuse, EPERM from kill, unreadable "
+             "link text and a process dying inside a call are not modelled")
     functions = ["FilesystemLock.lock", "FilesystemLock.unlock"]
 
     def cases(self, tier, rng):
@@ -654,11 +657,16 @@ class LockAllInterleavings(Bounded):
         s4 = scripts_upto(4)
         for _ in range(40):
             n = rng.choice((3, 3, 4))
-            pool = s4 if n == 3 else s2
-            init = rng.choice(("free", "stale", "held"))
-            scripts = tuple(rng.choice(pool) for _ in range(n))
+            if n == 3:
+                init = rng.choice(("free", "stale", "held"))
+                scripts = tuple(rng.choice(s4) for _ in range(n))
+            else:
+                # four processes: only worlds without any dead process (with one the history-keyed state space
+                # exceeds STATE_LIMIT; LockEverySchedule samples those)
+                init = rng.choice(("free", "held"))
+                scripts = tuple(rng.choice([s for s in s2 if "D" not in s]) for _ in range(n))
             if init == "held":
-                scripts = (rng.choice(HELD_FIRST),) + scripts[1:]
+                scripts = (rng.choice(HELD_FIRST if n == 3 else ["", "u", "U", "uL", "L"]),) + scripts[1:]
             c = emit(init, scripts)
             if c:
                 yield c
